@@ -140,6 +140,12 @@ PARTIES = [
     ('class A(NetworkParty):\n    def __init__(self):\n        super().__init__(connection_mode=ConnectionMode.OPEN, uri="tcp://localhost:29998")\n\n'
      'class B(NetworkParty):\n    def __init__(self):\n        super().__init__(connection_mode=ConnectionMode.EXTERNAL, uri="tcp://localhost:29998")\n\n'
      '<start> ::= <A:B:hello> (<B:A:ok> | <B:A:err>){1,2} <A:B:bye>?\n<hello> ::= "h"\n<ok> ::= "o"\n<err> ::= "e"\n<bye> ::= "b"\n'),
+    # one message type referenced with different annotations (echo style), with a sender only, and without any annotation
+    ('class Alice(NetworkParty):\n    def __init__(self):\n        super().__init__(connection_mode=ConnectionMode.OPEN, uri="tcp://localhost:29997")\n\n'
+     'class Bob(NetworkParty):\n    def __init__(self):\n        super().__init__(connection_mode=ConnectionMode.EXTERNAL, uri="tcp://localhost:29997")\n\n'
+     '<start> ::= <Alice:Bob:ping> <Bob:Alice:ping> (<Alice:msg> | <Bob:Alice:msg>)* <trailer>\n<trailer> ::= <msg>?\n<ping> ::= "ping"\n<msg> ::= "m" <n>\n<n> ::= "1" | "2"\n'),
+    # the same rule names without parties (printed in the same process as the specs above)
+    '<start> ::= <ping> <pong>? <hello>*\n<ping> ::= "ping" <n>\n<pong> ::= "pong" <n>\n<hello> ::= "h"\n<n> ::= "1" | "2"\n',
 ]
 
 
